@@ -13,7 +13,7 @@ CLASSES = {
     "torn": ["zero", "truncate", "tail", "dup_block"],
     "corrupt": ["flip", "bad_utf8", "nul", "bom8", "bom16", "crlf", "mixed_eol", "lone_cr", "ws_only", "binary"],
     "grammar": ["del_line", "dup_line", "del_token", "dup_token", "unbalance", "drop_close", "dedent",
-                "swap_ext", "shebang"],
+                "swap_ext", "shebang", "del_char", "dup_char", "del_punct"],
     "blowup": ["nest", "chain", "long_line", "many_funcs", "deep_parens", "deep_list"],
 }
 KIND_CLASS = {k: c for c, ks in CLASSES.items() for k in ks}
@@ -36,6 +36,8 @@ def draw_fault(t, data: bytes, lang: str, allow_blowup: bool = True, force_blowu
         p = [1 + t.draw(8, "fault.k"), t.draw(1 << 30, "fault.seed")]
     elif kind == "binary":
         p = [t.pick([1, 16, 300, 5000], "fault.len"), t.draw(1 << 30, "fault.seed")]
+    elif kind in ("del_char", "dup_char", "del_punct"):
+        p = [t.draw(P, "fault.pos")]
     elif kind in ("del_line", "dup_line", "del_token", "dup_token", "dedent"):
         p = [t.draw(P, "fault.idx"), 1 + t.draw(3, "fault.cnt")]
     elif kind == "swap_ext":
@@ -123,6 +125,18 @@ def apply(f: dict, data: bytes, lang: str) -> bytes:
             for j in range(i, min(len(ls), i + p[1])):
                 ls[j] = ls[j].lstrip(b" \t")
         return b"\n".join(ls)
+    if k in ("del_char", "dup_char"):
+        if not data:
+            return data
+        i = min(len(data) - 1, _pos(data, p[0]))
+        return data[:i] + data[i + 1:] if k == "del_char" else data[:i] + data[i:i + 1] + data[i:]
+    if k == "del_punct":
+        # delete one punctuation character (a dot inside 0.5, a comma, a colon, a quote ...)
+        idx = [m.start() for m in re.finditer(rb"[.,:;'\"=+\-*/<>!&|]", data)]
+        if not idx:
+            return data
+        i = idx[(p[0] * len(idx)) >> 20]
+        return data[:i] + data[i + 1:]
     if k in ("del_token", "dup_token"):
         toks = list(TOKEN.finditer(data))
         if not toks:
